@@ -34,6 +34,8 @@ func init() {
 		"vengineOnly":  func(e *Exec, a []Value) Value { return nil },
 		"vtmpdir":      func(e *Exec, a []Value) Value { return cs("dir.d") },
 		"vtouch":       func(e *Exec, a []Value) Value { return nil },
+		"vnative":      func(e *Exec, a []Value) Value { return Bool{C: false} },
+		"vcliRun":      primCLIRun,
 		"veqstr":       func(e *Exec, a []Value) Value { return e.strEq(a[0].(Str), a[1].(Str)) },
 		"vsymstr":      primSymStr,
 		"vscannerSplit": primScannerSplit,
